@@ -34,6 +34,8 @@ TRUSTED = ["fsspec.utils.seek_delimiter/read_block re-implemented in Lean and di
            "CPython str.split / bytes.index / io.StringIO(newline=None) as reference semantics"]
 
 SIG_BORDER = "read_text:self-overlapping-delimiter:lines-depend-on-blocksize"
+SIG_WIDE = "read_text:utf-16/utf-32-encoding:blocksize:block-boundary-inside-a-code-unit"
+WIDE = ("utf-16", "utf-16-le", "utf-16-be", "utf-32", "utf-32-le", "utf-32-be")
 
 
 def _b(xs):
@@ -209,12 +211,130 @@ def case_blocks(ctx, inp):
         ctx.branch("multi-block")
         if d and bs is not None:
             offs, _ = U.real_plan(len(data), bs)
-            if any(any(p < o < p + len(d) for p in range(len(data)) if data[p:p + len(d)] == d) for o in offs):
+            occ = [p for p in range(len(data)) if data[p:p + len(d)] == d]
+            if any(any(p < o < p + len(d) for p in occ) for o in offs):
                 ctx.branch("offset-cuts-a-delimiter")
+            if any(p + len(d) == o for p in occ for o in offs[1:]):
+                ctx.branch("delimiter-ends-exactly-at-an-offset")
+            if any(p == o for p in occ for o in offs[1:]):
+                ctx.branch("delimiter-starts-exactly-at-an-offset")
         if any(not b for b in blocks):
             ctx.branch("empty-block")
     if d and U.has_border(d):
         ctx.branch("bordered-delimiter")
+
+
+def case_blocksnz(ctx, inp):
+    """read_bytes(..., not_zero=True): the blocks concatenate to the file WITHOUT its header (everything after the
+    first delimiter that starts at or after byte 1)."""
+    import dask
+    from dask.bytes import read_bytes
+    d, data, bs = inp["d"], inp["data"], inp["bs"]
+    with U.files(inp.get("fs", "mem"), [data]) as paths:
+        _, out = read_bytes(paths[0], delimiter=_b(d), blocksize=bs, sample=False, not_zero=True)
+        blocks = [list(b) for b in dask.compute(*out[0], scheduler="sync")]
+    ctx.eq("read_bytes(not_zero=True) blocks", ctx.lean(Sym("fileblocksnz"), d, data, bs), _ok(blocks))
+    idx = _b(data).find(_b(d), 1)
+    want = data[idx + len(d):] if idx >= 0 else []
+    if [x for b in blocks for x in b] != want:
+        ctx.fail("read_bytes(not_zero=True): blocks do not concatenate to the file minus its header", observed=blocks,
+                 expected=want)
+    if idx >= 0 and want:
+        ctx.branch("not_zero:header-dropped")
+    if idx < 0:
+        ctx.branch("not_zero:no-delimiter-everything-dropped")
+    if blocks and not blocks[0] and want:
+        ctx.branch("not_zero:empty-first-block")
+
+
+def case_sample(ctx, inp):
+    """read_bytes(..., sample=n): the header sample is a prefix of the file that is the whole file or ends with the
+    delimiter; include_path returns one path per file, aligned with the blocks."""
+    import dask
+    from dask.bytes import read_bytes
+    d, files, n = inp["d"], inp["files"], inp["n"]
+    with U.files(inp.get("fs", "mem"), files) as paths:
+        sample, out, rpaths = read_bytes(paths, delimiter=_b(d) if d else None, blocksize=inp.get("bs"),
+                                         sample=f"{n} B" if inp.get("strn") else n, include_path=True)
+        blocks = [[list(b) for b in dask.compute(*o, scheduler="sync")] for o in out]
+        stripped = [p.split("://", 1)[-1].lstrip("/") for p in paths]
+    data = files[0]
+    if d:
+        ctx.eq("read_bytes sample", ctx.lean(Sym("sample"), n, d, data), list(sample))
+        if not (list(sample) == data or list(sample[-len(d):]) == d):
+            ctx.fail("read_bytes sample is neither the whole file nor ends with the delimiter", observed=list(sample))
+        if list(sample) != data and len(sample) > n:
+            ctx.branch("sample:extended-to-next-delimiter")
+    elif list(sample) != data[:n]:
+        ctx.fail("read_bytes sample without delimiter is not the first n bytes", observed=list(sample))
+    if data[:len(sample)] != list(sample):
+        ctx.fail("read_bytes sample is not a prefix of the first file", observed=list(sample))
+    if len(sample) < min(n, len(data)):
+        ctx.fail("read_bytes sample is shorter than requested although the file has more bytes", observed=list(sample))
+    if [p.lstrip("/") for p in rpaths] != stripped or len(blocks) != len(files):
+        ctx.fail("read_bytes(include_path=True): paths are not the files in order", observed=list(rpaths), expected=stripped)
+    for f, bl in zip(files, blocks):
+        if [x for b in bl for x in b] != f:
+            ctx.fail("read_bytes(include_path=True): blocks of a file do not concatenate to that file", observed=bl, expected=f)
+    if len(files) > 1:
+        ctx.branch("sample:several-files")
+    ctx.branch("sample")
+
+
+def case_encode(ctx, inp):
+    """The Lean UTF-8 encoder (`encode`, used by utf8_split_commutes / read_text_utf8) vs str.encode."""
+    cps = inp["cps"]
+    ctx.eq("str.encode('utf-8')", ctx.lean(Sym("encode"), cps), list("".join(map(chr, cps)).encode("utf-8")))
+    d = inp.get("delim")
+    if d:
+        text, delim = "".join(map(chr, cps)), "".join(map(chr, d))
+        if [list(p.encode()) for p in text.split(delim)] != [list(p) for p in text.encode().split(delim.encode())]:
+            ctx.fail("splitting the UTF-8 bytes at the encoded delimiter differs from splitting the text", observed=[cps, d])
+        model = ctx.lean(Sym("pysplit"), list(delim.encode()), list(text.encode()))
+        ctx.eq("bytes.split at the encoded delimiter", model, _ok([list(p.encode()) for p in text.split(delim)]))
+    if any(c > 0xFFFF for c in cps):
+        ctx.branch("encode:4-byte")
+    if any(0x7FF < c <= 0xFFFF for c in cps):
+        ctx.branch("encode:3-byte")
+    if any(0x7F < c <= 0x7FF for c in cps):
+        ctx.branch("encode:2-byte")
+
+
+def case_encoding(ctx, inp):
+    """read_text(encoding=…): ASCII-transparent encodings (latin-1, cp1252, utf-8-sig, ascii) must give the same
+    lines for every blocksize; fixed-width multi-byte encodings (utf-16/32) cannot (known finding)."""
+    from dask.bag.text import read_text
+    enc, text, delim = inp["enc"], inp["text"], inp["delim"]
+    data = list(text.encode(enc))
+    ref = U.ref_univ(text) if delim is None else U.ref_lines(text, delim)
+    with U.files(inp.get("fs", "mem"), [data]) as paths:
+        for bs in [None] + list(inp["bss"]):
+            try:
+                lines = list(read_text(paths[0], encoding=enc, blocksize=bs, linedelimiter=delim).compute(scheduler="sync"))
+            except UnicodeDecodeError as e:
+                if enc in WIDE and bs is not None:
+                    ctx.fail("read_text with a utf-16/utf-32 file and a blocksize raises UnicodeDecodeError (blocks are cut "
+                             "after the first byte of the delimiter's code unit)", sig=SIG_WIDE, observed=[enc, bs, str(e)[:80]], expected=ref)
+                    ctx.branch("encoding:wide+blocksize")
+                    continue
+                ctx.fail(f"read_text(encoding={enc}) raised UnicodeDecodeError", observed=[bs, str(e)[:120]])
+                continue
+            except Exception as e:
+                ctx.fail(f"read_text(encoding={enc}) raised {type(e).__name__}: {e}", observed=[bs])
+                continue
+            if lines != ref:
+                if enc in WIDE and bs is not None:
+                    ctx.fail("read_text with a utf-16/utf-32 file and a blocksize returns other lines than blocksize=None",
+                             sig=SIG_WIDE, observed=[enc, bs, lines], expected=ref)
+                    ctx.branch("encoding:wide+blocksize")
+                else:
+                    ctx.fail(f"read_text(encoding={enc}): lines differ from the decoded file split after each delimiter",
+                             observed=[bs, lines], expected=ref)
+    ctx.branch("encoding:" + enc)
+    if any(ord(c) > 127 for c in text):
+        ctx.branch("encoding:non-ascii-content")
+    if delim and any(ord(c) > 127 for c in delim):
+        ctx.branch("encoding:non-ascii-delimiter")
 
 
 def _read_text(paths, **kw):
@@ -358,7 +478,8 @@ def case_gzip(ctx, inp):
     ctx.branch("gzip")
 
 
-CASES = {"gzip": case_gzip, "plan": case_plan, "round53": case_round53, "seek": case_seek, "readblock": case_readblock,
+CASES = {"blocksnz": case_blocksnz, "sample": case_sample, "encode": case_encode, "encoding": case_encoding,
+         "gzip": case_gzip, "plan": case_plan, "round53": case_round53, "seek": case_seek, "readblock": case_readblock,
          "decode": case_decode, "ftb": case_ftb, "blocks": case_blocks, "readtext": case_readtext,
          "multifile": case_multifile}
 
@@ -427,6 +548,54 @@ def generate(ctx):
         bs = rng.choice(gen_blocksizes(rng, len(data))) if rng.random() < 0.93 else None
         yield "blocks", {"d": d, "data": data, "bs": bs, "fs": "tmp" if rng.random() < 0.2 else "mem",
                          "strbs": rng.random() < 0.3}
+    # ---- delimiters placed exactly at / across the planned offsets ------------------------------------
+    for _ in range(ctx.n(60, 900)):
+        d = list(rng.choice(DELIMS[:8] + [b"\r\n", b"|||"]))
+        size = rng.randint(len(d) + 2, 40)
+        bs = rng.randint(1, max(1, size // 2))
+        offs, _ = U.real_plan(size, bs)
+        data = [rng.choice([97, 98, 120]) for _ in range(size)]
+        for o in offs[1:]:
+            mode = rng.choice(["ends", "starts", "straddles", "none", "ends"])
+            p = {"ends": o - len(d), "starts": o, "straddles": o - rng.randint(0, len(d)), "none": None}[mode]
+            if p is not None and 0 <= p and p + len(d) <= size:
+                data[p:p + len(d)] = d
+        yield "blocks", {"d": d, "data": data, "bs": bs}
+    # ---- not_zero, sample, include_path ---------------------------------------------------------------
+    yield "blocksnz", {"d": [10], "data": list(b"h\na\nb\nc"), "bs": 2}
+    for _ in range(ctx.n(80, 1200)):
+        d = list(rng.choice(DELIMS))
+        data = gen_data(rng, d, 30) or list(d)
+        yield "blocksnz", {"d": d, "data": data, "bs": rng.choice(gen_blocksizes(rng, len(data))),
+                           "fs": "tmp" if rng.random() < 0.1 else "mem"}
+    for _ in range(ctx.n(80, 1200)):
+        d = list(rng.choice(DELIMS)) if rng.random() < 0.85 else []
+        files = [gen_data(rng, d or b"\n", 30) for _ in range(rng.choice([1, 1, 2, 3]))]
+        if not files[0]:
+            files[0] = list(d or b"x")
+        yield "sample", {"d": d, "files": files, "n": rng.choice([1, 2, 3, 5, 8, 100]),
+                         "bs": rng.choice([None, None, 3, 7]), "strn": rng.random() < 0.2}
+    # ---- encodings ------------------------------------------------------------------------------------
+    yield "encoding", {"enc": "utf-16", "text": "a\nb\nc", "delim": None, "bss": [3]}
+    for _ in range(ctx.n(40, 600)):
+        enc = rng.choice(["latin-1", "cp1252", "utf-8-sig", "ascii", "latin-1", "utf-8"] + (list(WIDE) if rng.random() < 0.12 else []))
+        alpha = "ab\nxy|;" + ("" if enc == "ascii" else "é\xfc\xa3") + ("€" if enc in ("cp1252", "utf-8-sig", "utf-8") + WIDE else "")
+        delim = rng.choice([None, "\n", "|", ";", "||", "ab"] + ([] if enc == "ascii" else ["é", "é|"]))
+        text = "".join(rng.choice(alpha) if rng.random() < 0.7 else (delim or "\n") for _ in range(rng.randint(0, 25)))
+        if delim and U.has_border(list(delim)):
+            continue
+        if delim is None:
+            text = text.replace("\r", "")
+        yield "encoding", {"enc": enc, "text": text, "delim": delim, "bss": gen_blocksizes(rng, len(text.encode(enc)), 2)}
+    for cps in ([0x7F, 0x80, 0x7FF, 0x800, 0xFFFF, 0x10000, 0x10FFFF], [0xD7FF, 0xE000, 0], []):
+        yield "encode", {"cps": cps}
+    for _ in range(ctx.n(150, 2000)):
+        pool = [97, 98, 10, 0xE9, 0x20AC, 0x1D11E, 0x7FF, 0x800, 0xFFFF, 0x10000, rng.randint(0, 0xD7FF), rng.randint(0xE000, 0x10FFFF)]
+        dl = [rng.choice(pool) for _ in range(rng.randint(1, 3))]
+        cps = []
+        for _ in range(rng.randint(0, 14)):
+            cps += dl if rng.random() < 0.3 else [rng.choice(pool)]
+        yield "encode", {"cps": cps, "delim": dl}
     # ---- read_text --------------------------------------------------------------------------------
     yield "readtext", {"data": [97, 124, 124, 98, 124, 124], "delim": [124, 124], "bss": [1, 2, 3]}
     yield "readtext", {"data": [], "delim": [10], "bss": [1, 2]}
@@ -527,7 +696,9 @@ LEVEL_TEXT = (
     "file_to_blocks: blocks_concat_file, boundary_after_delimiter, lines_blocksize_independent (all blocksizes incl. none, for "
     "border-free delimiters; refuted with a witness for self-overlapping ones = known finding), decode = split-after-delimiter without "
     "empty trailing element, universal-newline default, files_per_partition/include_path, fsspec's chunked read loop = one-shot search. "
-    "Validated only: UTF-8 self-synchronisation, encodings, compression. File sizes < 2^53.")
+    "UTF-8 self-synchronisation is PROVED (utf8_split_commutes, read_text_utf8: the byte lines computed block-wise are the encodings "
+    "of the text-level reference lines; borderFree_encode); not_zero (blocks_not_zero) and the header sample (sample_prefix, sample_ends). "
+    "Validated only: other encodings (ASCII-transparent ones pass; utf-16/32 with a blocksize = known finding), compression. File sizes < 2^53.")
 LEVEL_NOTE = (
     "Trusted: Lean kernel + standard axioms; the correspondence harness (function-level diffs against dask and fsspec, "
     "API-level read_bytes/read_text on in-memory and temp files); CPython float/str semantics; UTF-8 self-synchronisation; "
